@@ -221,20 +221,196 @@ def callees : List (String × List String) := [
 
 def exoticFeatures : List String := []
 
+def modrefUrl : List (String × Bool × List String × List String × List String × List (String × String)) := [
+  ("NewPercentEncodeSet", true, [], [], [], []),
+  ("PercentEncodeSet.Set", true, [], [], [], [("bitset.BitSet.Clone", "recv")]),
+  ("PercentEncodeSet.Clear", true, [], [], [], [("bitset.BitSet.Clone", "recv")]),
+  ("PercentEncodeSet.RuneShouldBeEncoded", true, [], [], [], [("bitset.BitSet.Test", "recv")]),
+  ("PercentEncodeSet.ByteShouldBeEncoded", true, [], [], [], [("bitset.BitSet.Test", "recv")]),
+  ("PercentEncodeSet.RuneNotInSet", true, [], [], [], [("bitset.BitSet.Test", "recv")]),
+  ("isURLCodePoint", false, [], [], [], [("bitset.BitSet.Test", "global")]),
+  ("init", false, [], [], [], [("bitset.BitSet.InPlaceUnion", "global"), ("bitset.BitSet.Set", "global")]),
+  ("parser.handleError", false, ["param0"], ["fresh"], [], []),
+  ("parser.handleErrorWithDescription", false, ["param0"], ["fresh"], [], []),
+  ("parser.handleWrappedError", false, ["param0"], ["fresh"], [], []),
+  ("parser.parseHost", false, ["param0"], ["fresh"], [], [("bitset.BitSet.Clone", "global"), ("bitset.BitSet.Test", "global"), ("charmap.Charmap.DecodeByte", "recv"), ("charmap.Charmap.EncodeRune", "param1"), ("charmap.Charmap.EncodeRune", "recv"), ("charmap.Charmap.String", "recv"), ("idna.Profile.ToASCII", "global")]),
+  ("parser.endsInANumber", false, ["param0"], [], [], [("bitset.BitSet.Test", "global")]),
+  ("parser.parseIPv4Number", false, ["param0"], ["fresh", "global"], [], [("bitset.BitSet.Test", "global")]),
+  ("isRadixDigit", false, [], [], [], [("bitset.BitSet.Test", "global")]),
+  ("parser.parseIPv4", false, ["param0"], ["fresh"], [], [("bitset.BitSet.Test", "global")]),
+  ("parser.parseIPv6", false, ["param0", "param1"], ["fresh"], [], [("bitset.BitSet.Test", "global")]),
+  ("parser.parseOpaqueHost", false, ["param0"], ["fresh"], [], [("bitset.BitSet.Test", "global"), ("charmap.Charmap.EncodeRune", "recv")]),
+  ("IPv6Addr.String", true, [], [], [], []),
+  ("IPv4Addr.String", true, [], [], [], []),
+  ("parser.ToASCII", true, [], ["fresh"], [], [("charmap.Charmap.EncodeRune", "recv"), ("charmap.Charmap.String", "recv"), ("idna.Profile.ToASCII", "global")]),
+  ("containsOnlyASCIIOrMiscAndNoPunycode", false, [], [], [], []),
+  ("parser.stringToUnicode", false, [], ["fresh"], [], [("charmap.Charmap.EncodeRune", "recv"), ("charmap.Charmap.String", "recv")]),
+  ("percentEncodeString", false, [], [], [], [("bitset.BitSet.Test", "param1")]),
+  ("percentEncodeByte", false, [], [], [], [("bitset.BitSet.Test", "param1")]),
+  ("newInputString", false, [], ["fresh"], [], []),
+  ("inputString.nextCodePoint", false, ["recv"], [], [], []),
+  ("inputString.currentIsInvalid", false, [], [], [], []),
+  ("inputString.currentByteOffset", false, [], [], [], []),
+  ("inputString.getCurrentAsByte", false, ["recv"], [], [], []),
+  ("inputString.rewindLast", false, ["recv"], [], [], []),
+  ("inputString.reset", false, ["recv"], [], [], []),
+  ("inputString.rewind", false, ["recv"], [], [], []),
+  ("inputString.remainingFromPointer", false, [], [], [], []),
+  ("inputString.remainingStartsWith", false, [], [], [], []),
+  ("inputString.remainingIsInvalidPercentEncoded", false, [], [], [], [("bitset.BitSet.Test", "global")]),
+  ("remainingIsInvalidPercentEncoded", false, [], [], [], [("bitset.BitSet.Test", "global")]),
+  ("inputString.String", true, [], [], [], []),
+  ("NewParser", true, [], [], [], []),
+  ("parser.Parse", true, [], ["fresh"], [], [("bitset.BitSet.Clone", "global"), ("bitset.BitSet.Clone", "recv"), ("bitset.BitSet.Test", "global"), ("bitset.BitSet.Test", "recv"), ("charmap.Charmap.DecodeByte", "recv"), ("charmap.Charmap.EncodeRune", "recv"), ("charmap.Charmap.String", "recv"), ("idna.Profile.ToASCII", "global")]),
+  ("parser.ParseRef", true, [], ["fresh"], [], [("bitset.BitSet.Clone", "global"), ("bitset.BitSet.Clone", "recv"), ("bitset.BitSet.Test", "global"), ("bitset.BitSet.Test", "recv"), ("charmap.Charmap.DecodeByte", "recv"), ("charmap.Charmap.EncodeRune", "recv"), ("charmap.Charmap.String", "recv"), ("idna.Profile.ToASCII", "global")]),
+  ("Url.Parse", true, [], ["fresh"], [], [("bitset.BitSet.Clone", "global"), ("bitset.BitSet.Clone", "recv"), ("bitset.BitSet.Test", "global"), ("bitset.BitSet.Test", "recv"), ("charmap.Charmap.DecodeByte", "recv"), ("charmap.Charmap.EncodeRune", "recv"), ("charmap.Charmap.String", "recv"), ("idna.Profile.ToASCII", "global")]),
+  ("Parse", true, [], ["fresh"], [], [("bitset.BitSet.Clone", "global"), ("bitset.BitSet.Test", "global"), ("charmap.Charmap.DecodeByte", "global"), ("charmap.Charmap.EncodeRune", "global"), ("charmap.Charmap.String", "global"), ("idna.Profile.ToASCII", "global")]),
+  ("ParseRef", true, [], ["fresh"], [], [("bitset.BitSet.Clone", "global"), ("bitset.BitSet.Test", "global"), ("charmap.Charmap.DecodeByte", "global"), ("charmap.Charmap.EncodeRune", "global"), ("charmap.Charmap.String", "global"), ("idna.Profile.ToASCII", "global")]),
+  ("parser.BasicParser", true, ["param2"], ["fresh", "param2"], [], [("bitset.BitSet.Clone", "global"), ("bitset.BitSet.Clone", "recv"), ("bitset.BitSet.Test", "global"), ("bitset.BitSet.Test", "recv"), ("charmap.Charmap.DecodeByte", "recv"), ("charmap.Charmap.EncodeRune", "recv"), ("charmap.Charmap.String", "recv"), ("idna.Profile.ToASCII", "global")]),
+  ("parser.percentEncodeInvalidRune", false, [], [], [], [("bitset.BitSet.Clone", "param1"), ("bitset.BitSet.Test", "param1"), ("charmap.Charmap.EncodeRune", "recv")]),
+  ("parser.percentEncodeRune", false, [], [], [], [("bitset.BitSet.Test", "param1"), ("charmap.Charmap.EncodeRune", "recv")]),
+  ("parser.PercentEncodeString", true, [], [], [], [("bitset.BitSet.Clone", "param1"), ("bitset.BitSet.Test", "global"), ("bitset.BitSet.Test", "param1"), ("charmap.Charmap.EncodeRune", "recv")]),
+  ("parser.DecodePercentEncoded", true, [], [], [], [("bitset.BitSet.Test", "global"), ("charmap.Charmap.DecodeByte", "recv")]),
+  ("parser.NewUrl", true, [], ["fresh"], [], []),
+  ("isSingleDotPathSegment", false, [], [], [], []),
+  ("isDoubleDotPathSegment", false, [], [], [], []),
+  ("startsWithAWindowsDriveLetter", false, [], [], [], [("bitset.BitSet.Test", "global")]),
+  ("isWindowsDriveLetter", false, [], [], [], [("bitset.BitSet.Test", "global")]),
+  ("isNormalizedWindowsDriveLetter", false, [], [], [], [("bitset.BitSet.Test", "global")]),
+  ("trimPrefix", false, [], [], [], [("bitset.BitSet.Test", "param1")]),
+  ("trimPostfix", false, [], [], [], [("bitset.BitSet.Test", "param1")]),
+  ("trim", false, [], [], [], [("bitset.BitSet.Test", "param1")]),
+  ("remove", false, [], [], [], [("bitset.BitSet.Test", "param1")]),
+  ("containsOnly", false, [], [], [], [("bitset.BitSet.Test", "param1")]),
+  ("Url.IsSpecialScheme", true, [], [], [], []),
+  ("Url.isSpecialScheme", false, [], [], [], []),
+  ("Url.getSpecialScheme", false, [], [], [], []),
+  ("Url.isSpecialSchemeAndBackslash", false, [], [], [], []),
+  ("Url.cleanDefaultPort", false, ["recv"], [], [], []),
+  ("Url.getDefaultPort", false, [], [], [], []),
+  ("EmptyParserOption.apply", false, [], [], [], []),
+  ("funcParserOption.apply", false, [], [], [], []),
+  ("newFuncParserOption", false, [], ["fresh", "fresh.f>param0"], [], []),
+  ("defaultParserOptions", false, [], [], [], []),
+  ("WithReportValidationErrors", true, [], ["fresh"], [], []),
+  ("WithFailOnValidationError", true, [], ["fresh"], [], []),
+  ("WithLaxHostParsing", true, [], ["fresh"], [], []),
+  ("WithCollapseConsecutiveSlashes", true, [], ["fresh"], [], []),
+  ("WithAcceptInvalidCodepoints", true, [], ["fresh"], [], []),
+  ("WithPreParseHostFunc", true, [], ["fresh"], [], []),
+  ("WithPostParseHostFunc", true, [], ["fresh"], [], []),
+  ("WithPercentEncodeSinglePercentSign", true, [], ["fresh"], [], []),
+  ("WithAllowSettingPathForNonBaseUrl", true, [], ["fresh"], [], []),
+  ("WithSkipWindowsDriveLetterNormalization", true, [], ["fresh"], [], []),
+  ("WithSpecialSchemes", true, [], ["fresh"], [], []),
+  ("WithEncodingOverride", true, [], ["fresh"], [], []),
+  ("WithPathPercentEncodeSet", true, [], ["fresh"], [], []),
+  ("WithQueryPercentEncodeSet", true, [], ["fresh"], [], []),
+  ("WithSpecialQueryPercentEncodeSet", true, [], ["fresh"], [], []),
+  ("WithFragmentPathPercentEncodeSet", true, [], ["fresh"], [], []),
+  ("WithSpecialFragmentPathPercentEncodeSet", true, [], ["fresh"], [], []),
+  ("WithSkipTrailingSlashNormalization", true, [], ["fresh"], [], []),
+  ("WithSkipEqualsForEmptySearchParamsValue", true, [], ["fresh"], [], []),
+  ("path.isOpaque", false, [], [], [], []),
+  ("path.isEmpty", false, [], [], [], []),
+  ("path.setOpaque", false, ["recv"], [], [], []),
+  ("path.addSegment", false, ["recv"], [], [], []),
+  ("path.init", false, ["recv"], [], [], []),
+  ("path.shortenPath", false, ["recv"], [], [], [("bitset.BitSet.Test", "global")]),
+  ("path.stripTrailingSpacesIfOpaque", false, ["recv"], [], [], []),
+  ("path.clone", false, [], ["fresh"], [], []),
+  ("path.String", true, [], [], [], []),
+  ("SearchParams.init", false, ["recv"], [], [], [("bitset.BitSet.Test", "global"), ("charmap.Charmap.DecodeByte", "recv")]),
+  ("SearchParams.update", false, ["recv"], [], [], [("bitset.BitSet.Test", "recv"), ("charmap.Charmap.EncodeRune", "recv")]),
+  ("SearchParams.Append", true, ["recv"], [], [], [("bitset.BitSet.Test", "recv"), ("charmap.Charmap.EncodeRune", "recv")]),
+  ("SearchParams.Delete", true, ["recv"], [], [], [("bitset.BitSet.Test", "recv"), ("charmap.Charmap.EncodeRune", "recv")]),
+  ("SearchParams.Get", true, [], [], [], []),
+  ("SearchParams.GetAll", true, [], ["fresh"], [], []),
+  ("SearchParams.Has", true, [], [], [], []),
+  ("SearchParams.Set", true, ["recv"], [], [], [("bitset.BitSet.Test", "recv"), ("charmap.Charmap.EncodeRune", "recv")]),
+  ("SearchParams.Sort", true, ["recv"], [], [], [("bitset.BitSet.Test", "recv"), ("charmap.Charmap.EncodeRune", "recv")]),
+  ("SearchParams.SortAbsolute", true, ["recv"], [], [], [("bitset.BitSet.Test", "recv"), ("charmap.Charmap.EncodeRune", "recv")]),
+  ("SearchParams.Iterate", true, ["recv"], [], [], [("bitset.BitSet.Test", "recv"), ("charmap.Charmap.EncodeRune", "recv")]),
+  ("SearchParams.String", true, [], [], [], [("bitset.BitSet.Test", "recv"), ("charmap.Charmap.EncodeRune", "recv")]),
+  ("SearchParams.QueryEscape", true, [], [], [], [("bitset.BitSet.Test", "recv"), ("charmap.Charmap.EncodeRune", "recv"), ("strings.Builder.WriteRune", "param1"), ("strings.Builder.WriteString", "param1")]),
+  ("SearchParams.Clone", true, [], ["fresh", "fresh.url>recv"], [], []),
+  ("Url.Href", true, [], [], [], []),
+  ("Url.Protocol", true, [], [], [], []),
+  ("Url.SetProtocol", true, ["recv"], [], [], [("bitset.BitSet.Clone", "global"), ("bitset.BitSet.Clone", "recv"), ("bitset.BitSet.Test", "global"), ("bitset.BitSet.Test", "recv"), ("charmap.Charmap.DecodeByte", "recv"), ("charmap.Charmap.EncodeRune", "recv"), ("charmap.Charmap.String", "recv"), ("idna.Profile.ToASCII", "global")]),
+  ("Url.Scheme", true, [], [], [], []),
+  ("Url.Username", true, [], [], [], []),
+  ("Url.SetUsername", true, ["recv"], [], [], [("bitset.BitSet.Clone", "global"), ("bitset.BitSet.Test", "global"), ("charmap.Charmap.EncodeRune", "recv")]),
+  ("Url.Password", true, [], [], [], []),
+  ("Url.SetPassword", true, ["recv"], [], [], [("bitset.BitSet.Clone", "global"), ("bitset.BitSet.Test", "global"), ("charmap.Charmap.EncodeRune", "recv")]),
+  ("Url.Host", true, [], [], [], []),
+  ("Url.SetHost", true, ["recv"], [], [], [("bitset.BitSet.Clone", "global"), ("bitset.BitSet.Clone", "recv"), ("bitset.BitSet.Test", "global"), ("bitset.BitSet.Test", "recv"), ("charmap.Charmap.DecodeByte", "recv"), ("charmap.Charmap.EncodeRune", "recv"), ("charmap.Charmap.String", "recv"), ("idna.Profile.ToASCII", "global")]),
+  ("Url.Hostname", true, [], [], [], []),
+  ("Url.SetHostname", true, ["recv"], [], [], [("bitset.BitSet.Clone", "global"), ("bitset.BitSet.Clone", "recv"), ("bitset.BitSet.Test", "global"), ("bitset.BitSet.Test", "recv"), ("charmap.Charmap.DecodeByte", "recv"), ("charmap.Charmap.EncodeRune", "recv"), ("charmap.Charmap.String", "recv"), ("idna.Profile.ToASCII", "global")]),
+  ("Url.Port", true, [], [], [], []),
+  ("Url.SetPort", true, ["recv"], [], [], [("bitset.BitSet.Clone", "global"), ("bitset.BitSet.Clone", "recv"), ("bitset.BitSet.Test", "global"), ("bitset.BitSet.Test", "recv"), ("charmap.Charmap.DecodeByte", "recv"), ("charmap.Charmap.EncodeRune", "recv"), ("charmap.Charmap.String", "recv"), ("idna.Profile.ToASCII", "global")]),
+  ("Url.DecodedPort", true, [], [], [], []),
+  ("Url.Pathname", true, [], [], [], []),
+  ("Url.SetPathname", true, ["recv"], [], [], [("bitset.BitSet.Clone", "global"), ("bitset.BitSet.Clone", "recv"), ("bitset.BitSet.Test", "global"), ("bitset.BitSet.Test", "recv"), ("charmap.Charmap.DecodeByte", "recv"), ("charmap.Charmap.EncodeRune", "recv"), ("charmap.Charmap.String", "recv"), ("idna.Profile.ToASCII", "global")]),
+  ("Url.OpaquePath", true, [], [], [], []),
+  ("Url.Search", true, [], [], [], []),
+  ("Url.SetSearch", true, ["recv"], [], [], [("bitset.BitSet.Clone", "global"), ("bitset.BitSet.Clone", "recv"), ("bitset.BitSet.Test", "global"), ("bitset.BitSet.Test", "recv"), ("charmap.Charmap.DecodeByte", "recv"), ("charmap.Charmap.EncodeRune", "recv"), ("charmap.Charmap.String", "recv"), ("idna.Profile.ToASCII", "global")]),
+  ("Url.SearchParams", true, ["recv"], ["recv"], [], [("bitset.BitSet.Test", "global")]),
+  ("Url.SetSearchParams", true, ["recv"], [], ["recv<-param0"], [("bitset.BitSet.Test", "recv"), ("charmap.Charmap.EncodeRune", "recv")]),
+  ("Url.Query", true, [], [], [], []),
+  ("Url.Hash", true, [], [], [], []),
+  ("Url.SetHash", true, ["recv"], [], [], [("bitset.BitSet.Clone", "global"), ("bitset.BitSet.Clone", "recv"), ("bitset.BitSet.Test", "global"), ("bitset.BitSet.Test", "recv"), ("charmap.Charmap.DecodeByte", "recv"), ("charmap.Charmap.EncodeRune", "recv"), ("charmap.Charmap.String", "recv"), ("idna.Profile.ToASCII", "global")]),
+  ("Url.Fragment", true, [], [], [], []),
+  ("Url.String", true, [], [], [], []),
+  ("Url.ValidationErrors", true, [], ["recv"], [], []),
+  ("Url.newUrlSearchParams", false, ["recv"], [], [], [("bitset.BitSet.Test", "global")]),
+  ("Url.IsIPv4", true, [], [], [], []),
+  ("Url.IsIPv6", true, [], [], [], []),
+  ("Url.Clone", true, [], ["fresh", "fresh.searchParams>recv"], [], []),
+  ("cloneStringPointer", false, [], ["fresh"], [], [])]
+
+def modrefCanon : List (String × Bool × List String × List String × List String × List (String × String)) := [
+  ("New", true, [], [], [], []),
+  ("profile.Parse", true, [], ["fresh"], [], [("bitset.BitSet.Clone", "global"), ("bitset.BitSet.Clone", "recv"), ("bitset.BitSet.Test", "global"), ("bitset.BitSet.Test", "recv"), ("charmap.Charmap.DecodeByte", "recv"), ("charmap.Charmap.EncodeRune", "recv"), ("charmap.Charmap.String", "recv"), ("idna.Profile.ToASCII", "global")]),
+  ("profile.ParseRef", true, [], ["fresh"], [], [("bitset.BitSet.Clone", "global"), ("bitset.BitSet.Clone", "recv"), ("bitset.BitSet.Test", "global"), ("bitset.BitSet.Test", "recv"), ("charmap.Charmap.DecodeByte", "recv"), ("charmap.Charmap.EncodeRune", "recv"), ("charmap.Charmap.String", "recv"), ("idna.Profile.ToASCII", "global")]),
+  ("profile.Canonicalize", true, ["param0"], ["param0"], [], [("bitset.BitSet.Clone", "global"), ("bitset.BitSet.Clone", "param0"), ("bitset.BitSet.Test", "global"), ("bitset.BitSet.Test", "param0"), ("charmap.Charmap.DecodeByte", "param0"), ("charmap.Charmap.EncodeRune", "param0"), ("charmap.Charmap.String", "param0"), ("idna.Profile.ToASCII", "global")]),
+  ("decodeEncode", false, [], [], [], [("bitset.BitSet.Clone", "param1"), ("bitset.BitSet.Test", "global")]),
+  ("repeatedDecode", false, [], [], [], [("bitset.BitSet.Test", "global")]),
+  ("percentEncode", false, [], [], [], [("bitset.BitSet.Clone", "param1")]),
+  ("percentEncodeByte", false, [], [], [], [("bitset.BitSet.Test", "param1")]),
+  ("decodePercentEncoded", false, [], [], [], [("bitset.BitSet.Test", "global")]),
+  ("unhex", false, [], [], [], []),
+  ("funcCanonParserOption.applyProfile", false, [], [], [], []),
+  ("WithRemoveUserInfo", true, [], ["fresh"], [], []),
+  ("WithRemovePort", true, [], ["fresh"], [], []),
+  ("WithRemoveFragment", true, [], ["fresh"], [], []),
+  ("WithRepeatedPercentDecoding", true, [], ["fresh"], [], []),
+  ("WithDefaultScheme", true, [], ["fresh"], [], []),
+  ("WithSortQuery", true, [], ["fresh"], [], [])]
+
 def costSitesUrl : List (String × String) := [
-  ("parser.parseIPv4", "ipv4 +="),
-  ("parser.parseOpaqueHost", "[]rune()"),
-  ("IPv6Addr.String", "output +="),
-  ("inputString.currentByteOffset", "pos +="),
-  ("parser.BasicParser", "newInputString"),
-  ("parser.BasicParser", "[]rune()"),
-  ("parser.percentEncodeRune", "j +="),
-  ("parser.DecodePercentEncoded", "string([:])"),
-  ("parser.DecodePercentEncoded", "i +="),
-  ("SearchParams.init", "strings.ReplaceAll")]
+  ("IPv6Addr.String", "string += output"),
+  ("SearchParams.init", "call strings.ReplaceAll"),
+  ("SearchParams.init", "call strings.SplitN"),
+  ("inputString.remainingFromPointer", "copying conversion string(i.runes[:])"),
+  ("inputString.remainingStartsWith", "copying conversion string(i.runes[:])"),
+  ("isDoubleDotPathSegment", "call strings.ToLower"),
+  ("isSingleDotPathSegment", "call strings.ToLower"),
+  ("newInputString", "copying conversion []rune(s)"),
+  ("parser.BasicParser", "call newInputString"),
+  ("parser.BasicParser", "copying conversion []rune(buffer.String())"),
+  ("parser.BasicParser", "copying conversion string(?)"),
+  ("parser.DecodePercentEncoded", "copying conversion []byte(s)"),
+  ("parser.DecodePercentEncoded", "copying conversion string(bytes[:])"),
+  ("parser.PercentEncodeString", "copying conversion []rune(s)"),
+  ("parser.parseHost", "call newInputString"),
+  ("parser.parseOpaqueHost", "copying conversion []rune(input[:])"),
+  ("parser.percentEncodeRune", "copying conversion string(percentEncoded[:])"),
+  ("percentEncodeByte", "copying conversion string(percentEncoded)"),
+  ("remainingIsInvalidPercentEncoded", "copying conversion string(runes[:])")]
 
 def costSitesCanon : List (String × String) := [
-  ("decodePercentEncoded", "i +=")]
+  ("decodePercentEncoded", "copying conversion []byte(s)"),
+  ("percentEncodeByte", "copying conversion string(percentEncoded)")]
 
 def set_c0 : List (Nat × Nat) := [(0x0, 0x1f), (0x7f, 0x10ffff)]
 
